@@ -270,6 +270,21 @@ fn cases(f: &mut dyn FnMut(Case)) {
         d.marks.push(Expect { role: "previous", offset: first_off, len: spec.len() });
         f(Case { kind: "duplicate-specialization", text: d.s, expect: d.marks, ordered: true, warning: None, slot: (0, 0, 0), target });
     }
+    {
+        // the group's description must not move the literals' locations
+        let mut d = Doc::new();
+        d.p("cmd --o=");
+        let ref_off = d.s.len();
+        d.p("<A>;\n<A> ::= ( ").mark("left", "quit").p(" ").mark("right", "-f").p(") \"descr\";\n");
+        d.marks.push(Expect { role: "reference", offset: ref_off, len: 3 });
+        f(mk("subword-spaces", d, true));
+        let mut d = Doc::new();
+        d.p("cmd --o=");
+        let ref_off = d.s.len();
+        d.p("<A>;\n<A> ::=\n  (").mark("left", "one").p(" ").mark("right", "two").p(" | three)\n  \"d\";\n");
+        d.marks.push(Expect { role: "reference", offset: ref_off, len: 3 });
+        f(mk("subword-spaces", d, true));
+    }
     for other in ["{{{ c }}}", "lit", "x | y"] {
         // an unrelated reference earlier in the call must not show up among the locations
         let mut d = Doc::new();
